@@ -10,6 +10,7 @@
 //   K Q <d> <n1> .. <nd> <b1> .. <bd> <f> ...   the same with periodic boundary conditions in the directions with b = 1
 //   Z <p> <flag> <m>          Field_Zp, init_coefficients(p), persistence_dim_max = flag, compute_persistent_cohomology(m)
 //   M <lo> <hi> <flag> <m>    Multi_field, init_coefficients(lo, hi), ...
+//                             (in two runs out of three the object has already served another init_coefficients call, see run_engine)
 // output: one line per input line
 //   K (simplicial) -> "n=<num_simplices> dim=<dimension()> order=<v,v:f;v,v:f;...>"      the order of filtration_simplex_range()
 //   K (cubical)    -> "n=<num_simplices> dim=<dimension()> cells=<dim>/<facets>/<f>;..."   in the order of filtration_simplex_range();
@@ -66,6 +67,17 @@ template <class Field, class Cpx, class IndexOf>
 std::string run_engine(Cpx& cpx, IndexOf index_of, const std::vector<double>& values, int a, int b, bool flag, double m) {
   typedef typename Cpx::Filtration_value FV;
   Persistent_cohomology<Cpx, Field> pc(cpx, flag);
+  // the Field_Zp object has a past (Field_Zp::init re-initialises: it clears its table; Multi_field::init appends to its
+  // lists and is not meant to be called twice, so multi-field objects stay fresh): which earlier init_coefficients call it
+  // served is a function of the requested run (so that a replay repeats it): none / a rejected request (exception
+  // swallowed) / another valid field first
+  if constexpr (!std::is_same<Field, Multi_field>::value) {
+    switch ((a * 31 + (flag ? 7 : 0) + (int)m) % 3) {
+      case 1: try { pc.init_coefficients(4); } catch (const std::invalid_argument&) {} break;
+      case 2: try { pc.init_coefficients(a == 2 ? 3 : 2); } catch (const std::invalid_argument&) {} break;
+      default: break;
+    }
+  }
   try {
     if constexpr (std::is_same<Field, Multi_field>::value) pc.init_coefficients(a, b); else pc.init_coefficients(a);
   } catch (const std::invalid_argument&) {
